@@ -699,6 +699,176 @@ Section Proofs.
     - apply tginit_inv.
   Qed.
 
+  (* ----- the registration table alone (C15 for the two-processor configuration): no D10 exclusion *)
+
+  Lemma commit_trange_core o nd (st : tstate) s e h st' :
+    commit_trange o nd st s e h = Some st' -> ts_core st' = core_commit nd (ts_core st) s e h.
+  Proof. unfold TriggerSync.commit_trange. destruct (insert_all _ _ _); [intros [= <-]; reflexivity|discriminate]. Qed.
+
+  Lemma trollback_core o (st : tstate) to : ts_core (trollback o st to) = rollback_to (ts_core st) to.
+  Proof. reflexivity. Qed.
+
+  Lemma trange_loop_cinv (v : view) :
+    tview_ok v -> quiet_before (@t_admissible LogT) v fs ->
+    forall rs s (st : tstate) orders rpc db,
+      ranges_cover s (head_number v) (fl_range fl) rs -> 0 <= s ->
+      st_rows (ts_core st) = rows_of v fs (s - 1) ->
+      let '(st2, r, wrote) := trange_loop (node_of_view v) st rs orders rpc db in
+      (wrote = false /\ st2 = st) \/
+      (wrote = true /\ exists k h, s <= k <= head_number v /\ hash_at v k = Some h /\
+                                  ts_core st2 = mkstate (Some (k, h)) (rows_of v fs k)).
+  Proof.
+    intros Hvo Hq.
+    induction rs as [|[a b] rest IH]; intros s st orders rpc db Hcov Hs Hrows; [simpl; left; auto|].
+    simpl in Hcov. destruct Hcov as (-> & Hsb & Hbe & Hlen & Hlast & Hfull & Hrest).
+    cbn [TriggerSync.trange_loop].
+    destruct (pop rpc) as [fh rpc1]. destruct (is_fail fh); [left; auto|].
+    change (n_hash (node_of_view v) b) with (hash_at v b).
+    destruct (hash_at_in_range titem v b ltac:(lia)) as [hb Hhb]. rewrite Hhb.
+    destruct (pop rpc1) as [fr rpc2]. destruct (pop db) as [fa db1].
+    destruct (pop_n (length (active st s)) rpc2) as [ft rpc3].
+    destruct (is_fail fr || is_fail fa || ft); [left; auto|].
+    destruct (popb orders) as [o orders1].
+    destruct (commit_trange o (node_of_view v) st s b hb) as [st'|] eqn:Ec; [|left; auto].
+    assert (Hcore' : ts_core st' = mkstate (Some (b, hb)) (rows_of v fs b)).
+    { rewrite (commit_trange_core _ _ _ _ _ _ _ Ec).
+      destruct (core_commit_rows v (ts_core st) s b hb Hvo Hq Hs Hsb Hbe Hrows) as (Hc & Hext & _).
+      unfold Syncer.commit_range in *. cbn [st_rows] in Hc. f_equal. rewrite Hc. exact Hext. }
+    destruct (pop db1) as [fc db2]. destruct fc.
+    - assert (Hcov' : ranges_cover (b + 1) (head_number v) (fl_range fl) rest).
+      { destruct rest as [|p rest']; [simpl; specialize (Hlast eq_refl); lia|exact Hrest]. }
+      specialize (IH (b + 1) st' orders1 rpc3 db2 Hcov' ltac:(lia)).
+      replace (b + 1 - 1) with b in IH by lia. rewrite Hcore' in IH. specialize (IH eq_refl).
+      destruct (trange_loop (node_of_view v) st' rest orders1 rpc3 db2) as [[st2 r] wrote2].
+      right. split; [reflexivity|].
+      destruct IH as [[_ ->]|[_ (k & h & Hk & Hh & Hc2)]].
+      + exists b, hb. split; [lia|]. auto.
+      + exists k, h. split; [lia|]. auto.
+    - left. auto.
+    - right. split; [reflexivity|]. exists b, hb. split; [lia|]. auto.
+  Qed.
+
+  Lemma tsync_cinv (v w : view) (st : tstate) orders rpc db :
+    tview_ok v -> quiet_before (@t_admissible LogT) v fs ->
+    cinv (ts_core st) w ->
+    (st_status (ts_core st) <> None -> hash_determines w v) ->
+    head_ok fl (mkg (ts_core st) w) v ->
+    let '(st', r, wrote) := tsync fl (node_of_view v) st orders rpc db in
+    (wrote = false /\ st' = st) \/ (wrote = true /\ cinv (ts_core st') v).
+  Proof.
+    intros Hvo Hq Hcinv Hw Hok.
+    assert (Hbound : head_number v + fl_range fl < two64) by (destruct Hvo as (_ & _ & _ & Hb); unfold two64; lia).
+    assert (Hphase2 : forall (st1 : tstate) orders1 rpc1 db1 wrote1 start,
+      start = next_start fl (ts_core st1) -> 0 <= start ->
+      (start <= head_number v -> st_rows (ts_core st1) = rows_of v fs (start - 1)) ->
+      ((wrote1 = false /\ st1 = st) \/ (wrote1 = true /\ cinv (ts_core st1) v)) ->
+      let '(st', r, wrote) :=
+        (let '(f4, db1) := pop db1 in
+         if is_fail f4 then (st1, Err, wrote1) else
+         if start >? n_number (node_of_view v) then (st1, Ok, wrote1)
+         else match get_sync_ranges start (n_number (node_of_view v)) (fl_range fl) with
+              | RangesOutOfFuel => (st1, OutOfFuel, wrote1)
+              | RangesDone rs => let '(st2, r, wrote2) := trange_loop (node_of_view v) st1 rs orders1 rpc1 db1 in (st2, r, wrote1 || wrote2)
+              end) in
+      (wrote = false /\ st' = st) \/ (wrote = true /\ cinv (ts_core st') v)).
+    { intros st1 orders1 rpc1 db1 wrote1 start Hstart Hs0 Hready Hprev.
+      destruct (pop db1) as [f4 db2]. destruct (is_fail f4); [exact Hprev|].
+      change (n_number (node_of_view v)) with (head_number v).
+      destruct (start >? head_number v) eqn:Hgt; [exact Hprev|].
+      assert (Hle : start <= head_number v) by (destruct (Z.gtb_spec start (head_number v)); [discriminate|lia]).
+      destruct (sync_ranges_cover start (head_number v) (fl_range fl) Hs0 HR Hbound) as (rs & Hrs & Hcov).
+      rewrite Hrs.
+      assert (H := trange_loop_cinv v Hvo Hq rs start st1 orders1 rpc1 db2 Hcov Hs0 (Hready Hle)).
+      destruct (trange_loop (node_of_view v) st1 rs orders1 rpc1 db2) as [[st2 r] wrote2].
+      destruct H as [[-> ->]|[-> (k & h & Hk & Hh & Hc2)]].
+      - rewrite orb_false_r. exact Hprev.
+      - right. split; [apply orb_true_r|]. rewrite Hc2. unfold inv. cbn [st_status st_rows].
+        split; [lia|]. split; [reflexivity|right; exact Hh]. }
+    unfold TriggerSync.tsync.
+    destruct (pop db) as [f1 db1]. destruct (is_fail f1); [left; auto|].
+    unfold reorg_target.
+    destruct (st_status (ts_core st)) as [[k h]|] eqn:Hst.
+    - specialize (Hw ltac:(discriminate)).
+      assert (Hc := Hcinv). unfold inv in Hc. rewrite Hst in Hc. destruct Hc as (Hk & Hrows & Hh).
+      destruct (reorg_decision titem ukey (@t_key LogT) (@t_admissible LogT) fl HD v w (ts_core st) k h Hvo Hcinv Hw Hok Hst)
+        as [Hno Hyes].
+      destruct (num_reorged fl k h (node_of_view v) <=? 0) eqn:Hn.
+      + apply Z.leb_le in Hn.
+        apply (Hphase2 st orders rpc db1 false (next_start fl (ts_core st)) eq_refl).
+        * unfold next_start. rewrite Hst. lia.
+        * unfold next_start. rewrite Hst. intros Hle. replace (k + 1 - 1) with k by lia.
+          rewrite Hrows. apply (rows_of_agree titem (@t_admissible LogT) w v k); [exact (Hno Hn Hle)|exact Hfs|lia].
+        * left. auto.
+      + apply Z.leb_gt in Hn. destruct (Hyes Hn) as (Hkn & Hhead & Hag).
+        set (n := num_reorged fl k h (node_of_view v)) in *.
+        destruct (pop db1) as [f2 db2]. destruct (is_fail f2); [left; auto|].
+        destruct (popb orders) as [o orders1]. destruct (pop db2) as [f3 db3].
+        set (st1 := trollback o st (k - n)).
+        assert (Hcore1 : ts_core st1 = mkstate (Some (k - n, [])) (rows_of v fs (k - n))).
+        { unfold st1. rewrite trollback_core. unfold rollback_to. f_equal. rewrite Hrows, rows_of_rollback by lia.
+          apply (rows_of_agree titem (@t_admissible LogT) w v (k - n)); [exact Hag|exact Hfs|lia]. }
+        assert (Hcinv1 : cinv (ts_core st1) v).
+        { rewrite Hcore1. unfold inv. cbn [st_status st_rows]. split; [lia|]. split; [reflexivity|left; reflexivity]. }
+        destruct f3.
+        * apply (Hphase2 st1 orders1 rpc db3 true (next_start fl (ts_core st1)) eq_refl).
+          -- rewrite Hcore1. unfold next_start. cbn [st_status]. lia.
+          -- rewrite Hcore1. unfold next_start. cbn [st_status st_rows]. intros _. f_equal. lia.
+          -- right. auto.
+        * left. auto.
+        * right. auto.
+    - assert (Hc := Hcinv). unfold inv in Hc. rewrite Hst in Hc.
+      apply (Hphase2 st orders rpc db1 false (next_start fl (ts_core st)) eq_refl).
+      + unfold next_start. rewrite Hst. exact Hfs.
+      + unfold next_start. rewrite Hst. intros _. rewrite Hc. symmetry. apply rows_of_empty. lia.
+      + left. auto.
+  Qed.
+
+  Definition cginv (U : list view) (g : tgstate LogT) : Prop :=
+    cinv (ts_core (tg_st g)) (tg_view g) /\ (st_status (ts_core (tg_st g)) <> None -> In (tg_view g) U).
+
+  Lemma cgrun_inv (U : list view) : tuniverse_ok U ->
+    forall ops g, (forall v o r d, In (TSync v o r d) ops -> In v U) -> cginv U g -> theads_ok fl g ops ->
+                  cginv U (fold_left (tgstep fl) ops g).
+  Proof.
+    intros [HU Hdet]. induction ops as [|op rest IH]; intros g Hin Hg Hok; [exact Hg|].
+    cbn [fold_left]. cbn [TriggerSync.theads_ok] in Hok. destruct Hok as [Hok1 Hok2].
+    apply IH; [intros v o r d Hv; apply (Hin v o r d); right; exact Hv| |exact Hok2].
+    destruct Hg as [Hinv Hghost]. destruct g as [st w]. cbn [tg_st tg_view] in *.
+    destruct op as [v orders rpc db|k]; cbn [TriggerSync.tgstep tg_st tg_view].
+    - assert (Hv : In v U) by (apply (Hin v orders rpc db); left; reflexivity).
+      destruct (HU v Hv) as (Hvo & Hq).
+      assert (H := tsync_cinv v w st orders rpc db Hvo Hq Hinv (fun Hs => Hdet w v (Hghost Hs) Hv) Hok1).
+      destruct (tsync fl (node_of_view v) st orders rpc db) as [[st' r] wrote].
+      destruct H as [[-> ->]|[-> Hinv']]; cbn [tg_st tg_view]; split; auto.
+    - split; unfold tdecrypt; destruct (_ && _); auto.
+  Qed.
+
+  Theorem registrations_exact (ops : list (top LogT)) (v : view) (orders : list bool) (rpc db : list fault) :
+    let history := ops ++ [TSync v orders rpc db] in
+    tuniverse_ok (top_views history) -> theads_ok fl tginit history ->
+    let st := tg_st (tgrun fl history) in
+    forall k h b, st_status (ts_core st) = Some (k, h) -> block_at v k = Some b -> bk_hash b = h ->
+      st_rows (ts_core st) = rows_of v fs k.
+  Proof.
+    intros history HU Hok st k h b Hst Hb Hh.
+    assert (Hg : cginv (top_views history) (tgrun fl history)).
+    { unfold TriggerSync.tgrun. apply cgrun_inv; auto.
+      - intros u o r d Hu. eapply top_views_In; eauto.
+      - split; [reflexivity|]. intros H. exfalso. apply H. reflexivity. }
+    destruct Hg as [Hcinv Hghost]. fold st in Hcinv, Hghost.
+    unfold inv in Hcinv. rewrite Hst in Hcinv. destruct Hcinv as (Hk & Hrows & Hhash).
+    assert (Hv : In v (top_views history)).
+    { apply (top_views_In history v orders rpc db). unfold history. apply in_or_app. right. left. reflexivity. }
+    destruct HU as [HU Hdet]. destruct (HU v Hv) as ((_ & Hhn & _) & _).
+    assert (Hne : h <> []) by (rewrite <- Hh; apply Hhn; eapply block_at_In; eauto).
+    destruct Hhash as [Hhash|Hhash]; [contradiction|].
+    set (w := tg_view (tgrun fl history)) in *.
+    assert (Hw : In w (top_views history)) by (apply Hghost; rewrite Hst; discriminate).
+    assert (Hag : agree_upto w v k).
+    { eapply hash_at_determines; [apply Hdet; assumption|exact Hhash|]. unfold hash_at. rewrite Hb. simpl. congruence. }
+    rewrite Hrows. apply (rows_of_agree titem (@t_admissible LogT) w v k); [exact Hag|exact Hfs|lia].
+  Qed.
+
   End Exact.
 
   (* range limit 1: the exclusion is vacuous *)
